@@ -252,9 +252,9 @@ def emit_loops(ctx, P, A, rule, scope, exempt=None):
         base = "%s|loop|%s" % (v.fn.short, snip)
         dup[base] = dup.get(base, 0) + 1
         key = base if dup[base] == 1 else "%s#%d" % (base, dup[base])
-        if not v.ok and (v.fn.short, dup[base]) in exempt:
+        if not v.ok and (v.fn.short, snip) in exempt:
             counts["exempt"] += 1
-            ctx.ob(rule, key, True, v.fn.loc(v.head), "EXEMPT: %s" % exempt[(v.fn.short, dup[base])])
+            ctx.ob(rule, key, True, v.fn.loc(v.head), "EXEMPT (not a terminating loop by design): %s" % exempt[(v.fn.short, snip)])
             continue
         counts[v.kind] += 1
         ctx.ob(rule, key, v.ok, v.fn.loc(v.head), "%s: %s" % (v.kind, v.detail))
